@@ -14,6 +14,9 @@ ORACLES = {
                       'raises': ('Exception', 'UserBaseException')},
     'UserValidator': {'returns': 'none', 'raises': ('pjrpc.common.exceptions:IdentityError',)},
     'UserIdGen': {'returns': '=UserIdIter', 'raises': ()},
+    'UserStatusFn': {'returns': 'int', 'raises': ()},
+    # a response object is a WSGI application: calling it sends it
+    'ExtHttpResponse': {'returns': 'any', 'raises': ()},
     'UserJitter': {'returns': 'number', 'raises': ()},
     'UserCallback': {'returns': 'any', 'raises': ('Exception',)},
     'UserExcludeFn': {'returns': 'any', 'raises': ()},
@@ -36,6 +39,12 @@ FIELD_TYPES = {
     ('pjrpc.common.v20:BatchRequest', '_requests'): 'list[=pjrpc.common.v20:Request]',
     ('pjrpc.server.dispatcher:AsyncDispatcher', '_concurrent_batch'): 'bool',
     ('pjrpc.client.client:BaseAbstractClient', 'id_gen_impl'): '=UserIdGen',
+    ('builtins:ExtHttpRequest', 'mimetype'): 'str',
+    ('builtins:ExtHttpRequest', 'content_type'): 'opt:str',
+    ('builtins:ExtHttpRequest', 'is_json'): 'bool',
+    ('pjrpc.server.integration.flask:JsonRPC', '_status_by_error'): '=UserStatusFn',
+    ('pjrpc.server.integration.aiohttp:Application', '_status_by_error'): '=UserStatusFn',
+    ('pjrpc.server.integration.werkzeug:JsonRPC', '_dispatcher'): 'pjrpc.server.dispatcher:Dispatcher',
     ('pjrpc.client.retry:RetryStrategy', 'backoff'): 'pjrpc.client.retry:Backoff',
     ('pjrpc.client.retry:RetryStrategy', 'codes'): 'opt:=set',
     ('pjrpc.client.retry:RetryStrategy', 'exceptions'): 'opt:=set',
@@ -43,6 +52,10 @@ FIELD_TYPES = {
 
 # methods of abstract user objects (C19: tracers do not raise)
 ORACLE_METHODS = {
+    # HTTP request objects of the web frameworks: reading the body as text returns a str or fails to decode
+    'ExtHttpRequest': {'get_data': {'returns': 'str', 'raises': ('UnicodeDecodeError',)},
+                       'text': {'returns': 'str', 'raises': ('UnicodeDecodeError',)}},
+    # a response object is a WSGI application
     # ids produced by the configured id generator: strings or integers, never null (assumed for the built-in
     # generators sequential / randint / random; generators.uuid violates it - see known findings)
     'UserIdIter': {'__next__': {'returns': 'str|int', 'raises': ()}},
@@ -54,4 +67,9 @@ ORACLE_METHODS = {
         'on_request_end': {'returns': 'none', 'raises': ()},
         'on_error': {'returns': 'none', 'raises': ()},
     },
+}
+
+# assumed invariants of external (framework) classes, stated as spec functions of the object
+CLASS_INVARIANTS = {
+    'ExtHttpRequest': 'spec.http:request_wf',
 }
